@@ -411,3 +411,35 @@ register("C18",
          "compared with WireV.runH where the analysis of each variant is taken from a fresh checkout; after every successful gen: output = "
          "fresh-checkout output, second gen is a no-op, diff = 0; non-trivial = history of >= 4 steps",
          [_c18_part])
+
+
+def _c20_part(rep, tier):
+    from . import c20tier
+    from .common import load_findings
+    dis, fails = c20tier.run_c20(rep, tier, set())
+    known = [f for f in load_findings() if f["property"] == "C20" and f["status"] == "known"]
+    keep = []
+    for f in fails:
+        hit = None
+        for k in known:
+            m = k["match"]
+            if f.get("spelling") in m.get("labels", []) and all(m["message"] in w and "without a diagnostic positioned" in w for w in f["why"]):
+                hit = k
+        if hit:
+            msg = "%s: %s" % (hit["id"], hit["what"])
+            if msg not in rep.known:
+                rep.known.append(msg)
+        else:
+            keep.append(f)
+    return dis, keep
+
+
+register("C20",
+         "one package per spelling: ~280 ways of writing the arguments of wire.Build/NewSet/Struct/FieldsOf/Bind/Value/InterfaceValue "
+         "(identifiers of every object kind, nil, literals, address-of, conversions, calls, anonymous and generic types, non-literal field "
+         "names, renamed and dot-imported wire, multi-name var specs) and 28 x 2 injector result types (every Go type kind, named and "
+         "unnamed, with an error-returning provider so that the zero value is emitted) and injector shapes; the type-correct ones (go vet "
+         "with the wireinject tag) are run through `wire gen` and `wire check`: no panic, status 0 or a diagnostic with file:line:col in "
+         "the user's sources; plus the regenerated tables (copyAST node coverage, zeroValue kind coverage) closed by decide; "
+         "non-trivial = each type-correct spelling",
+         [_c20_part])
